@@ -351,6 +351,8 @@ def main():
             ck.count("C_wait_value_ge_1")
         if has_wait or (nd and len(ops) > nd) or len(bds) > 1:
             nontrivial.add(("C", d.get("stream")))
+        if d.get("skip", "0") != "0":
+            ck.count("C_observation_overlap_with_kernel_two_back", int(d["skip"]))
         if d.get("lazy") != "1":
             specfailC.append((i, "hazard", d.get("first", "")))
         if d.get("blockjobs", "0") != "0":
@@ -435,6 +437,8 @@ def main():
         ck.count("D_ops_with_wait", nw)
         for f in o.get("features", []):
             ck.count("D_feature_" + f)
+        if d.get("skip", "0") != "0":
+            ck.count("D_observation_overlap_with_kernel_two_back", int(d["skip"]))
         if ndma and nops > ndma:
             nontrivial.add(("D", o["profile"], o["idx"], si, tuple(o.get("opts", []))))
         if d.get("explore") not in ("skip", d.get("lazy")):
